@@ -42,11 +42,11 @@ def typenameDef : FieldDef :=
     type := .named (str "String") false Pos.zero, dirs := [], pos := Pos.zero }
 
 /-- expected type / definition pair assigned from a declared type -/
-def linkOfType (s : Schema) (t : GType) : Option GType × Option Definition := (some t, s.type? t.name)
+def linkOfType (s : SV) (t : GType) : Option GType × Option Definition := (some t, s.type? t.name)
 
 mutual
   /-- `walkValue` (`exp`/`dfn` are the node's `ExpectedType`/`Definition` as assigned by the caller) -/
-  def walkValue (s : Schema) (cur : Option OperationDef) (exp : Option GType) (dfn : Option Definition)
+  def walkValue (s : SV) (cur : Option OperationDef) (exp : Option GType) (dfn : Option Definition)
       (v : Value) (ws : WS) : WS × List Event :=
     match v with
     | .mk k raw ch p =>
@@ -62,7 +62,7 @@ mutual
         | _ => (ws1, [])
       (r.1, r.2 ++ [{ cur := cur, links := r.1.links, p := .value (.mk k raw ch p) exp dfn }])
   /-- children of an object literal: `dfn` is the parent's `Definition` -/
-  def walkObjChildren (s : Schema) (cur : Option OperationDef) (dfn : Option Definition)
+  def walkObjChildren (s : SV) (cur : Option OperationDef) (dfn : Option Definition)
       (ch : Children) (ws : WS) : WS × List Event :=
     match ch with
     | .nil => (ws, [])
@@ -76,7 +76,7 @@ mutual
       let r2 := walkObjChildren s cur dfn rest r1.1
       (r2.1, r1.2 ++ r2.2)
   /-- children of a list literal: `exp`/`dfn` are the parent's -/
-  def walkListChildren (s : Schema) (cur : Option OperationDef) (exp : Option GType) (dfn : Option Definition)
+  def walkListChildren (s : SV) (cur : Option OperationDef) (exp : Option GType) (dfn : Option Definition)
       (ch : Children) (ws : WS) : WS × List Event :=
     match ch with
     | .nil => (ws, [])
@@ -90,7 +90,7 @@ mutual
 end
 
 /-- `walkArgument` over an argument list; `argDefs = none` when the field/directive is unknown -/
-def walkArgs (s : Schema) (cur : Option OperationDef) (argDefs : Option (List ArgDef)) :
+def walkArgs (s : SV) (cur : Option OperationDef) (argDefs : Option (List ArgDef)) :
     List Argument → WS → WS × List Event
   | [], ws => (ws, [])
   | a :: rest, ws =>
@@ -101,7 +101,7 @@ def walkArgs (s : Schema) (cur : Option OperationDef) (argDefs : Option (List Ar
     let r2 := walkArgs s cur argDefs rest r1.1
     (r2.1, r1.2 ++ r2.2)
 
-def walkDirectiveItems (s : Schema) (cur : Option OperationDef) (parent : Option Definition) (loc : Bytes) :
+def walkDirectiveItems (s : SV) (cur : Option OperationDef) (parent : Option Definition) (loc : Bytes) :
     List Directive → WS → WS × List Event
   | [], ws => (ws, [])
   | dir :: rest, ws =>
@@ -112,7 +112,7 @@ def walkDirectiveItems (s : Schema) (cur : Option OperationDef) (parent : Option
     (r2.1, r1.2 ++ ev :: r2.2)
 
 /-- `walkDirectives` -/
-def walkDirectives (s : Schema) (cur : Option OperationDef) (parent : Option Definition) (dirs : List Directive)
+def walkDirectives (s : SV) (cur : Option OperationDef) (parent : Option Definition) (dirs : List Directive)
     (loc : Bytes) (ws : WS) : WS × List Event :=
   let r := walkDirectiveItems s cur parent loc dirs ws
   (r.1, r.2 ++ [{ cur := cur, links := r.1.links, p := .directiveList dirs }])
@@ -122,7 +122,7 @@ abbrev Jump := Option Definition → Selections → WS → Option (WS × List Ev
 
 mutual
   /-- `walkSelection` -/
-  def walkSelection (s : Schema) (d : QueryDoc) (cur : Option OperationDef) (jump : Jump)
+  def walkSelection (s : SV) (d : QueryDoc) (cur : Option OperationDef) (jump : Jump)
       (parent : Option Definition) (sel : Selection) (ws : WS) : Option (WS × List Event) :=
     match sel with
     | .field al nm args dirs sub p =>
@@ -164,7 +164,7 @@ mutual
       | none =>
         some (r2.1, r2.2 ++ [{ cur := cur, links := r2.1.links, p := .fragmentSpread ⟨nm, dirs, p⟩ dfn parent }])
   /-- `walkSelectionSet` -/
-  def walkSelections (s : Schema) (d : QueryDoc) (cur : Option OperationDef) (jump : Jump)
+  def walkSelections (s : SV) (d : QueryDoc) (cur : Option OperationDef) (jump : Jump)
       (parent : Option Definition) (sels : Selections) (ws : WS) : Option (WS × List Event) :=
     match sels with
     | .nil => some (ws, [])
@@ -178,17 +178,17 @@ mutual
 end
 
 /-- `walkSelectionSet` with at most `n - 1` nested jumps into fragment definitions -/
-def walkLevel (s : Schema) (d : QueryDoc) (cur : Option OperationDef) : Nat → Jump
+def walkLevel (s : SV) (d : QueryDoc) (cur : Option OperationDef) : Nat → Jump
   | 0 => fun _ _ _ => none
   | n + 1 => fun parent sels ws => walkSelections s d cur (walkLevel s d cur n) parent sels ws
 
 /-- first loop of `walkOperation`: `varDef.Definition = Types[…]`, fire the `variable` observers -/
-def walkVarDefsA (s : Schema) (cur : Option OperationDef) (ws : WS) : List VarDef → List Event
+def walkVarDefsA (s : SV) (cur : Option OperationDef) (ws : WS) : List VarDef → List Event
   | [] => []
   | v :: rest => { cur := cur, links := ws.links, p := .variable v (s.type? v.type.name) } :: walkVarDefsA s cur ws rest
 
 /-- second loop of `walkOperation`: default values and directives of the variable definitions -/
-def walkVarDefsB (s : Schema) (cur : Option OperationDef) : List VarDef → WS → WS × List Event
+def walkVarDefsB (s : SV) (cur : Option OperationDef) : List VarDef → WS → WS × List Event
   | [], ws => (ws, [])
   | v :: rest, ws =>
     let r1 : WS × List Event := match v.default with
@@ -209,14 +209,14 @@ def opMutation := str "mutation"
 def opSubscription := str "subscription"
 
 /-- root definition and directive location chosen by `walkOperation` -/
-def opRoot (s : Schema) (op : Operation) : Option Definition × Bytes :=
+def opRoot (s : SV) (op : Operation) : Option Definition × Bytes :=
   if op == opQuery || op == [] then (s.query.bind s.type?, locQuery)
   else if op == opMutation then (s.mutation.bind s.type?, locMutation)
   else if op == opSubscription then (s.subscription.bind s.type?, locSubscription)
   else (none, [])
 
 /-- `walkOperation` (the caller has reset `validatedFragmentSpreads`) -/
-def walkOperation (s : Schema) (d : QueryDoc) (fuel : Nat) (op : OperationDef) (links : Links) :
+def walkOperation (s : SV) (d : QueryDoc) (fuel : Nat) (op : OperationDef) (links : Links) :
     Option (Links × List Event) :=
   let cur := some op
   let ws0 : WS := { visited := [], links := links, used := [] }
@@ -231,7 +231,7 @@ def walkOperation (s : Schema) (d : QueryDoc) (fuel : Nat) (op : OperationDef) (
       [{ cur := cur, links := r4.1.links, p := .operation op (usedFlags r4.1.used op.vars []) }])
 
 /-- `walkFragment` (stand-alone: `CurrentOperation == nil`) -/
-def walkFragment (s : Schema) (d : QueryDoc) (fuel : Nat) (f : FragmentDef) (links : Links) :
+def walkFragment (s : SV) (d : QueryDoc) (fuel : Nat) (f : FragmentDef) (links : Links) :
     Option (Links × List Event) :=
   let dfn := s.type? f.typeCond
   let ws0 : WS := { visited := [], links := links, used := [] }
@@ -241,7 +241,7 @@ def walkFragment (s : Schema) (d : QueryDoc) (fuel : Nat) (f : FragmentDef) (lin
   | some r2 =>
     some (r2.1.links, r1.2 ++ r2.2 ++ [{ cur := none, links := r2.1.links, p := .fragment f dfn }])
 
-def walkOps (s : Schema) (d : QueryDoc) (fuel : Nat) : List OperationDef → Links → Option (Links × List Event)
+def walkOps (s : SV) (d : QueryDoc) (fuel : Nat) : List OperationDef → Links → Option (Links × List Event)
   | [], l => some (l, [])
   | op :: rest, l =>
     match walkOperation s d fuel op l with
@@ -251,7 +251,7 @@ def walkOps (s : Schema) (d : QueryDoc) (fuel : Nat) : List OperationDef → Lin
       | none => none
       | some r2 => some (r2.1, r1.2 ++ r2.2)
 
-def walkFrags (s : Schema) (d : QueryDoc) (fuel : Nat) : List FragmentDef → Links → Option (Links × List Event)
+def walkFrags (s : SV) (d : QueryDoc) (fuel : Nat) : List FragmentDef → Links → Option (Links × List Event)
   | [], l => some (l, [])
   | f :: rest, l =>
     match walkFragment s d fuel f l with
@@ -266,7 +266,7 @@ def walkFrags (s : Schema) (d : QueryDoc) (fuel : Nat) : List FragmentDef → Li
 def walkFuel (d : QueryDoc) : Nat := d.frags.length + 1
 
 /-- `Walker.walk`: all events of one validation run, `none` = out of fuel (proved unreachable) -/
-def walkDoc (s : Schema) (d : QueryDoc) : Option (List Event) :=
+def walkDoc (s : SV) (d : QueryDoc) : Option (List Event) :=
   match walkOps s d (walkFuel d) d.ops Links.empty with
   | none => none
   | some r1 =>
